@@ -5,7 +5,8 @@ from .. import conforms, runner, valcases, valcorr
 MODULE = "D42.Props.C02All"
 THEOREMS = ["validate_iff_conforms", "validateP_nil_iff", "validateAllP_nil_iff", "validateElemsP_nil_iff",
             "validateFieldsP_nil_iff", "anyOkP_iff", "validateScalar_nil_iff", "minByLen_nil_iff", "windowsP_exists_nil",
-            "validateScalar_eq_extracted", "listPrelude_eq_extracted", "dictPrelude_eq_extracted", "anyPrelude_eq_extracted", "validateP_list_prelude", "validateP_dict_prelude"]
+            "validateScalar_eq_extracted", "listPrelude_eq_extracted", "dictPrelude_eq_extracted", "anyPrelude_eq_extracted", "validateP_list_prelude", "validateP_dict_prelude",
+            "extracted_accepts_iff_conforms"]
 FILES = ["D42/Model/Data.lean", "D42/Model/Float.lean", "D42/Model/Validate.lean", "D42/Spec/Conforms.lean", "D42/Props/C02.lean",
          "D42/Model/CheckProg.lean", "D42/Gen/ValidatorProg.lean", "D42/Props/ValidatorProg.lean", "D42/Props/C02All.lean"]
 
